@@ -14,11 +14,11 @@ import "time"
 
 func init() {
 	Register(&Property{
-		ID:   "C04",
-		Run:  runC04,
-		Rule: "runs = generated histories (registration, authorizations incl. conflicts, reports incl. equivocation/over-capacity, clock advances, real rotations) with a graceful restart after seeded prefixes (quick: p=1/4 per op; thorough: also after every op of short histories), 1-3 restarts in a row, clocks needing 0/1/several catch-up rotations; non-trivial = at least one restart happened with accepted state on disk; distinct = distinct decision signatures",
-		Real: []string{"NewGCAServer load path (keys, GCA key, equipment with ban replay, history, reports)", "Close()", "all handlers used by the history", "rotation loop incl. start-up catch-up", "real files on tmpfs"},
-		Stub: []string{"socket listeners"},
+		ID:             "C04",
+		Run:            runC04,
+		Rule:           "runs = generated histories (registration, authorizations incl. conflicts, reports incl. equivocation/over-capacity, clock advances, real rotations) with a graceful restart after seeded prefixes (quick: p=1/4 per op; thorough: also after every op of short histories), 1-3 restarts in a row, clocks needing 0/1/several catch-up rotations; non-trivial = at least one restart happened with accepted state on disk; distinct = distinct decision signatures",
+		Real:           []string{"NewGCAServer load path (keys, GCA key, equipment with ban replay, history, reports)", "Close()", "all handlers used by the history", "rotation loop incl. start-up catch-up", "real files on tmpfs"},
+		Stub:           []string{"socket listeners"},
 		Assumptions:    []string{"authorized-server list, migration orders and live impact rates are not persisted by design and are excluded"},
 		RequiredProbes: []string{"hist.restart", "hist.conflict", "hist.rotation", "hist.catchup-multi", "c04.restart-with-ban", "c04.restart-unregistered"},
 	})
